@@ -39,8 +39,10 @@ CLAIMED = {
              "of the 256/128/64/32/16-byte kernels with and without a tail (thorough: all 0..1100), aad and nonce lengths "
              "across the 1-way/4-way GHASH thresholds (thorough: all), tag sizes 12..16, nonces solved in GF(2^128) so the "
              "initial counter is 2^32-j, on the fused assembly path, the standard library's generic GCM over the portable "
-             "cipher and generic GCM over the accelerated block.",
-        note="Trusted: TLC/SANY, GCM.tla + SM4.tla (vectors). Keys/data sampled, lengths bounded (1100/300). arm64 glue not executable here.",
+             "cipher, generic GCM over the accelerated block, and the arm64 kernel-plus-Go-glue code transplanted onto the amd64 kernels "
+             "(go build -overlay).",
+        note="Trusted: TLC/SANY, GCM.tla + SM4.tla (vectors). Keys/data sampled, lengths bounded (1100/300 + a few around 2^16). "
+             "The arm64 glue runs over amd64 kernels (its NEON xorN routines replaced by Go loops); NEON kernels are not executable here.",
         ref="6 C06"),
     "C07": dict(
         technique="TLC trace validation of recorded Open calls against the TLA+ GCM definition (accelerated, with a pure-TLA+ re-validated sample)",
